@@ -3,7 +3,10 @@
 From Cobweb Require Import Machine.
 From CobwebProofs Require Import ListLemmas.
 
-Definition kview (w : world) := (ticket_ctr w, tr_ev w, tr_se w, tr_er w, tr_de w, buffer w, g_prep w, g_claim w).
+Definition kview0 (w : world) := (ticket_ctr w, tr_ev w, tr_se w, tr_er w, tr_de w, buffer w, g_prep w, g_claim w).
+Definition kview (w : world) := (kview0 w, g_runs w).
+Lemma kview_kview0 w w' : kview w' = kview w -> kview0 w' = kview0 w.
+Proof. unfold kview. intros H. exact (f_equal fst H). Qed.
 
 Lemma kview_handle_drop h w : kview (handle_drop h w) = kview w.
 Proof.
@@ -132,12 +135,16 @@ Proof.
   pose proof (kview_act (mk idx) a w) as H1. destruct (act P (mk idx) a w) as [w1 c1].
   specialize (IH mk (idx + 1) w1). destruct (acts P mk (idx + 1) l w1) as [w2 c2]. cbn [fst] in *. congruence.
 Qed.
-Lemma kview_body_begin sd t r c w : kview (body_begin P sd t r c w) = kview w.
+Lemma kview0_body_sample sd t r c w : kview0 (body_sample P sd t r c w) = kview0 w.
 Proof.
-  unfold body_begin. pose proof (kview_sample_readers sd (xsys_of P t) w) as H1.
+  unfold body_sample. pose proof (kview_sample_readers sd (xsys_of P t) w) as H1. apply kview_kview0 in H1.
   destruct (sample_readers sd (xsys_of P t) w) as [sm w1]. cbn [snd] in H1.
   destruct (sm_l sm) as [[src [v|]]|]; try exact H1. destruct (xsys_of P t) as [[x ?]|]; exact H1.
 Qed.
+Lemma kview_state_bump t w : kview (state_bump t w) = kview w.
+Proof. unfold state_bump. destruct (alookup t (cbs w)); reflexivity. Qed.
+Lemma kview0_body_begin sd t r c w : kview0 (body_begin P sd t r c w) = kview0 w.
+Proof. unfold body_begin. rewrite (kview_kview0 _ _ (kview_state_bump _ _)). apply kview0_body_sample. Qed.
 Definition is_cleanup_cmd (c : cmd) : bool := match c with CCleanup _ => true | _ => false end.
 
 Lemma kview_prim c w : is_cleanup_cmd c = false -> kview (fst (apply_prim P c w)) = kview w.
